@@ -1,0 +1,45 @@
+//go:build verif
+
+package lint
+
+import "time"
+
+// Verification hooks (build tag "verif" only). They expose the unexported
+// per-registry registration entry points and checkEffective so that an
+// external harness can build fresh registries and probe the effective-window
+// predicate directly. They add no behaviour to a default build.
+
+// VerifRegisterCertificateLint registers l into r (which must come from
+// NewRegistry) and returns the registration error instead of panicking.
+func VerifRegisterCertificateLint(r Registry, l *CertificateLint) error {
+	return r.(*registryImpl).registerCertificateLint(l)
+}
+
+// VerifRegisterLint is the deprecated-API counterpart (register(*Lint)).
+func VerifRegisterLint(r Registry, l *Lint) error {
+	return r.(*registryImpl).register(l)
+}
+
+// VerifRegisterRevocationListLint registers a CRL lint into r.
+func VerifRegisterRevocationListLint(r Registry, l *RevocationListLint) error {
+	return r.(*registryImpl).registerRevocationListLint(l)
+}
+
+// VerifRegisterOcspResponseLint registers an OCSP response lint into r.
+func VerifRegisterOcspResponseLint(r Registry, l *OcspResponseLint) error {
+	return r.(*registryImpl).registerOcspResponseLint(l)
+}
+
+// VerifCheckEffective exposes checkEffective.
+func VerifCheckEffective(effective, ineffective, target time.Time) bool {
+	return checkEffective(effective, ineffective, target)
+}
+
+// VerifProfileNames returns the names of all registered profiles.
+func VerifProfileNames() []string {
+	var out []string
+	for k := range profiles {
+		out = append(out, k)
+	}
+	return out
+}
